@@ -221,4 +221,18 @@ PROPS = {
                       "select-with-ctx.Done shape; their termination is observed on every case (goroutine profile), their transition systems are not written out (finding F7 was in that layer).",
         "assumptions": [],
     },
+    "C19": {
+        "streams": ["json", "runtime"],
+        "rule": "json: line streams of 1-14 lines over three schemas with schema changes, a malformed line or a line longer than the 64 KiB scanner limit at a random position "
+                "(one third of the cases), sample counts 1-6, flush intervals never / 1-3 ms with a slow reader so that flush timers fire mid-stream. Oracle: nil error only if every "
+                "line was readable and then the decoded output is the numeric projection of every line in order. runtime: real CollectRuntime runs (sample count 10-14, collection "
+                "1-3 ms, flush 5-45 ms, cancellation after 20-170 ms); the files are decoded with ReadMetrics and the id trace is validated against the model. Distinct = distinct case line.",
+        "level_text": "Theorems (Props/C19.lean): json_all_or_error — a malformed or unreadable line anywhere, with flush ticks anywhere, means no result (an error); a result means every "
+                      "line was accepted; a periodic flush only appends. runtime_ids — for every sequence of collect and flush ticks ending in cancellation the ids in the files are "
+                      "exactly 0..n-1 in order, no file of the sequence is empty and the final partial batch is flushed (inductive invariant over the event loop).",
+        "level_note": "JSON parsing and the scanner are external (a line is what they make of it). Timer order is a list of scheduler choices; real timers, the OS and the file system are "
+                      "observed only through the validated traces. That each file is valid FTDC is C09/C07. Findings F17 (scanner error ignored) and F20 (a periodic flush ended the "
+                      "collection with a nil error) are fixed.",
+        "assumptions": ["bufio.Scanner stops with an error at a token > 64 KiB"],
+    },
 }
